@@ -13,6 +13,8 @@ mod c05;
 mod hist;
 mod c06;
 mod c07;
+mod c08;
+mod gen;
 mod c09;
 mod c09cli;
 mod c10;
@@ -59,6 +61,7 @@ fn main() {
         "C05" => "C05",
         "C06" => "C06",
         "C07" => "C07",
+        "C08" => "C08",
         "C09" => "C09",
         "C10" => "C10",
         "C17" => "C17",
@@ -73,6 +76,7 @@ fn main() {
         "C05" => c05::run(&ctx),
         "C06" => c06::run(&ctx),
         "C07" => c07::run(&ctx),
+        "C08" => c08::run(&ctx),
         "C09" => c09::run(&ctx),
         "C10" => c10::run(&ctx),
         "C17" => c17::run(&ctx),
@@ -104,6 +108,7 @@ fn replay(path: &str) -> i32 {
         "seq" => hist::replay(&v),
         "c10" => c10::replay(&v),
         "cli" => clicheck::replay(&v),
+        "c08" => c08::replay(&v),
         _ => Err(format!("unknown replay kind '{}'", kind)),
     };
     match r {
